@@ -1,10 +1,12 @@
 ---------------------------- MODULE MCTextBlock ----------------------------
 (* Bounded instance of TextBlock: every text of at most MaxLines lines and Depth tokens in     *)
-(* total (Depth depends on the configuration, see Budget), word lengths 1..width+2 (or         *)
-(* 1..room+2, room = width - indent), the `nn` token at every position,                        *)
-(* a leading dash wherever it can matter (first token of a line / after `nn`), for   *)
-(* every configuration indent x width x first-line mode.  The whole input and output are part  *)
-(* of the state, so the declarative predicates are evaluated on every (text, output) pair.     *)
+(* total (Depth depends on the configuration, see Budget; a second line counts as one token),  *)
+(* word lengths 1..width+2 or 1..room+2 (room = width - indent; every longer word behaves like *)
+(* room+2: it is always wrapped and always too long), the `nn` token at every position, a      *)
+(* leading dash wherever it can matter (first token of a line / after `nn`), for every         *)
+(* configuration indent x width x first-line mode.  The whole input and output are part of the *)
+(* state, so the declarative predicates are evaluated on every (text, output) pair.  A line    *)
+(* without token stands for an input line that holds blanks only.                              *)
 EXTENDS TextBlock, TLC, Json
 CONSTANTS Widths, Indents, MaxLines,
           MaxTokens,     \* at most this many tokens per text ...
